@@ -171,8 +171,11 @@ fn body(sched: &Arc<Sched>, addrs: &[u8], pre: bool) -> (Execution, Verdict) {
 pub fn run(ctx: &Ctx) -> Report {
     util::quiet_panics();
     let mut rep = Report::new("model_checking");
-    let bound = if ctx.tier.thorough() { 3 } else { 2 };
-    let cfg = Config { bound, max_steps: 2000, max_execs: 3_000_000, workers: util::cores().min(12) };
+    // Bound 2 is always completed; thorough goes on to bound 3 under an
+    // execution cap per scenario (reported when hit).
+    let passes: Vec<(usize, u64)> = if ctx.tier.thorough() { vec![(2, 3_000_000), (3, 400_000)] } else { vec![(2, 3_000_000)] };
+    let bound = passes.last().unwrap().0;
+    let mut capped_in: Vec<String> = Vec::new();
     rep.rule = "2-4 threads each perform the listener's real connection \
         set-up (RtrStream::new on a real socket: registry lookup, \
         double-checked insert under the write mutex, connection count +1), \
@@ -185,6 +188,8 @@ pub fn run(ctx: &Ctx) -> Report {
         positive count while open, final list == set of addresses, all \
         counts 0 after close".into();
     let mut samples = Vec::new();
+    for (bound, max_execs) in passes.iter().copied() {
+    let cfg = Config { bound, max_steps: 2000, max_execs, workers: util::cores().min(12) };
     for (name, addrs) in scenarios(ctx.tier.thorough()) {
         for pre in [false, true] {
             let stats = sched::explore(&cfg, |s| body(s, &addrs, pre));
@@ -194,8 +199,8 @@ pub fn run(ctx: &Ctx) -> Report {
             rep.nontrivial += stats.by_preemptions.iter().filter(|(k, _)| **k > 0).map(|(_, v)| *v).sum::<u64>();
             for (k, v) in &stats.outcomes { *rep.outcomes.entry(format!("{name}:{k}")).or_insert(0) += v; }
             rep.states += stats.outcomes.len() as u64;
-            rep.extra.insert(format!("executions_{name}_{}", if pre { "known" } else { "fresh" }), json!(stats.executions));
-            if let Some(c) = stats.capped { rep.capped = Some(c) }
+            rep.extra.insert(format!("executions_bound{bound}_{name}_{}", if pre { "known" } else { "fresh" }), json!(stats.executions));
+            if stats.capped.is_some() { capped_in.push(format!("{name}/{}", if pre { "known" } else { "fresh" })) }
             if let Some(m) = stats.machinery {
                 eprintln!("machinery error: {m}");
                 std::process::exit(2)
@@ -215,8 +220,15 @@ pub fn run(ctx: &Ctx) -> Report {
             }
         }
     }
+    }
     for s in samples { rep.sample(s) }
-    rep.bound = format!("preemption bound {bound}; all schedules within the bound executed");
+    if capped_in.is_empty() {
+        rep.bound = format!("preemption bound {bound}; all schedules within the bound executed");
+    }
+    else {
+        rep.bound = format!("preemption bound 2: all schedules executed; bound 3: all schedules in the scenarios not listed as capped, the first 400000 in the others");
+        rep.capped = Some(format!("bound 3: execution cap 400000 reached in {}", capped_in.join(", ")));
+    }
     rep.assumptions.push("scheduling points at the registry's two loads, its store and its write mutex (hooks) and at open/close; the atomic counters are single RMW operations".into());
     rep
 }
